@@ -41,6 +41,11 @@ def describe(e):
         return "%s (%s, debug=%s, headers %s): before %s after %s" % (e["what"], e["m"], e["dbg"], json.dumps(e["req"])[:150], json.dumps(e["before"])[:200], json.dumps(e["after"])[:200])
     if e.get("ev") == "Hang":
         return "%s (%s, debug=%s, headers %s)" % (e["what"], e["m"], e["dbg"], json.dumps(e["req"])[:200])
+    lay = {1: "behind a layer that had set ACAO to the request's own Origin slice: EMITTED by the middleware:",
+           2: "behind an outer allow-all middleware of this library: EMITTED by the inner one:"}.get(e.get("layer"), "")
+    if lay:
+        return "%s Origin=%r debug=%s %s %s (headers already there: %s; final: %s)" % (
+            e["m"], [o[:120] for o in e["origin"]], e["dbg"], lay, json.dumps(e["resp"]["hdrs"])[:300], json.dumps(e["pre"])[:200], json.dumps(e["raw"])[:300])
     return "%s %s Origin=%r ACRM=%r ACRH=%r ACRPN=%r debug=%s -> status %s headers %s" % (
         e["m"], "", [o[:120] for o in e["origin"]], [x[:60] for x in e["acrm"]], [x[:80] for x in e["acrh"]],
         e["acrpn"], e["dbg"], e["resp"]["status"], json.dumps(e["raw"])[:400])
